@@ -167,5 +167,4 @@ theorem contfrac_complete (s : Strategy) (targets : List Int) (hne : targets ≠
     ∃ f c, chain s f (targets.mergeSort (fun a b => a ≤ b)) = some c ∧ IsChain c ∧ ∀ x ∈ targets, x ∈ c :=
   contfrac_total s (stratOK_all s) targets hne hpos
 
-#print axioms contfrac_complete
 end P
